@@ -161,3 +161,103 @@ def site(body, bb):
 def returns_term(body):
     """Term of the returned value `_0`."""
     return body.term_local(0)
+
+
+# --------------------------------------------------------------------------------------------
+# iteration / result helpers
+
+ADAPTERS = ["Iterator::enumerate", "Iterator::cloned", "Iterator::copied", "Iterator::map", "Iterator::zip",
+            "Iterator::inspect", "Iterator::by_ref", "Iterator::peekable"]
+ITER_SOURCES = ["IntoIterator::into_iter", "slice::iter", "Vec::iter", "HashMap::iter", "HashMap::keys", "HashMap::values",
+                "HashMap::values_mut", "BTreeMap::iter", "BTreeSet::iter", "HashSet::iter", "slice::iter_mut", "BTreeMap::values_mut",
+                "BTreeMap::values", "HashMap::into_values", "BTreeMap::into_values", "BTreeMap::keys", "HashMap::iter_mut", "HashMap::drain",
+                "Vec::drain", "HashMap::into_keys"]
+
+
+def elem_of(t):
+    """If t is (part of) the element yielded by `Iterator::next` in a for loop, return
+    (collection term, [adapter names], element projection path) else None."""
+    path = []
+    cur = t
+    # strip projections down to the `(next(..) as Some).0`
+    while isinstance(cur, tuple) and cur:
+        if cur[0] == "field" and isinstance(cur[1], tuple) and cur[1][0] == "downcast" and cur[1][2] == "Some":
+            nxt = cur[1][1]
+            if nxt[0] in ("ref", "deref"):
+                nxt = nxt[1]
+            if is_call(nxt, "Iterator::next"):
+                it = nxt[2][0]
+                adapters = []
+                while True:
+                    it = peel(it, transparent=["Deref::deref", "DerefMut::deref_mut"])
+                    if is_call(it, ADAPTERS):
+                        adapters.append(strip_generics(it[1]).split("::")[-1])
+                        it = it[2][0]
+                        continue
+                    if is_call(it, ITER_SOURCES):
+                        adapters.append(strip_generics(it[1]).split("::")[-1])
+                        it = it[2][0]
+                        continue
+                    return (it, adapters, list(reversed(path)))
+            return None
+        if cur[0] in ("field",):
+            path.append(cur[2])
+            cur = cur[1]
+            continue
+        if cur[0] in ("deref", "ref"):
+            cur = cur[1]
+            continue
+        return None
+    return None
+
+
+def result_assign_blocks(body):
+    """(err_blocks, ok_blocks): blocks assigning an Err(..) resp. anything else to the return place _0."""
+    err, ok = set(), set()
+    reach = body.reachable_blocks()
+    for bi in reach:
+        bb = body.blocks[bi]
+        for st in bb["stmts"]:
+            if st["k"] == "assign" and st["pl"]["l"] == 0 and not st["pl"]["p"]:
+                rv = st["rv"]
+                if rv["k"] == "agg" and rv.get("agg") == "adt" and rv["adt"].endswith("result::Result") and rv["variant"] == "Err":
+                    err.add(bi)
+                else:
+                    ok.add(bi)
+        t = bb["term"]
+        if t["k"] == "call" and t["dest"]["l"] == 0 and not t["dest"]["p"]:
+            names = names_of(t.get("callee_args", "")) | names_of(t.get("callee", ""))
+            if name_matches(names, "FromResidual::from_residual"):
+                err.add(bi)
+            else:
+                ok.add(bi)
+    return err, ok
+
+
+def rejecting(body, block):
+    """Every normal path from `block` returns an Err (no block assigning a non-Err value to _0 is reachable)."""
+    err, ok = result_assign_blocks(body)
+    r = body.reach(block)
+    return not (r & ok) and bool(r & err)
+
+
+def try_continue_block(body, call_site):
+    """For `x = call(..)?` : the block entered on the Ok (Continue) edge of the `?`, else None."""
+    for c in body.calls_to("Try::branch"):
+        a = c.args[0]
+        if isinstance(a, tuple) and a[0] == "call" and a[3] == call_site.bb:
+            si = body.switch_info(c.target) if c.target is not None else None
+            if si:
+                for v, tgt in si[1]:
+                    if v == 0:
+                        return tgt
+    return None
+
+
+def callsite_of(body, t):
+    """CallSite object for a ('call', ...) term of this body."""
+    if isinstance(t, tuple) and t and t[0] == "call":
+        for c in body.calls():
+            if c.bb == t[3]:
+                return c
+    return None
